@@ -1,5 +1,6 @@
 #!/usr/bin/env python3
 import ast
+import io
 import os
 from collections import defaultdict
 from typing import Dict, Tuple, Union
@@ -136,7 +137,8 @@ MappingType = Dict[str, Dict[str, Tuple[str, str]]]
 
 
 def rewrite_imports(source_code: str, mapping: MappingType) -> Union[str, None]:
-    lines = source_code.splitlines(keepends=True)
+    # split on the line ends the Python parser itself recognises (str.splitlines knows more)
+    lines = io.StringIO(source_code, newline="").readlines()
     tree = ast.parse(source_code)
     replacements = []
 
@@ -172,14 +174,19 @@ def rewrite_imports(source_code: str, mapping: MappingType) -> Union[str, None]:
             # Get line numbers
             start_line = node.lineno - 1  # Convert to 0-based index
             end_line = getattr(node, 'end_lineno', node.lineno) - 1
-            replacements.append((start_line, end_line, replacement_lines))
+            replacements.append((start_line, end_line, node.col_offset, node.end_col_offset,
+                                 replacement_lines))
 
     if len(replacements) == 0:
         return None
 
     # Apply replacements in reverse order to maintain line indices
-    for start_line, end_line, replacement_lines in reversed(replacements):
-        lines[start_line:end_line+1] = replacement_lines
+    for start_line, end_line, start_col, end_col, replacement_lines in reversed(replacements):
+        # keep what shares the first and the last physical line with the import
+        # (column offsets are in bytes)
+        before = lines[start_line].encode()[:start_col].decode()
+        after = lines[end_line].encode()[end_col:].decode()
+        lines[start_line:end_line+1] = [before + ''.join(replacement_lines)[:-1] + after]
 
     return ''.join(lines)
 
